@@ -388,5 +388,67 @@ Proof.
                           exfalso; rewrite (ihd (region_wp _ (or_introl Hb))) in *; discriminate
                         | exact Hw ] ]
             end).
+  (* ia, after the write of time_left: the loop is outside its own critical sections *)
+  all: try (match goal with
+            | Hq : fp (fts ?st ?ii) = FRed _ RWrite |- ?G =>
+                lazymatch G with _ \/ _ => fail | _ /\ _ => fail | _ => idtac end;
+                pose proof (excl_fl st i0' i0) as E; rewrite Hq in E; simpl in E; specialize (E ltac:(lia));
+                destruct (lp st) as [| | | | | | | | | |[]| | |[]| | | | | | | |[]| | | | | |]; simpl in *;
+                try exact I; try reflexivity; lia
+            end).
+  (* j1 *)
+  all: try (match goal with
+            | Ha : armed _ = true, HIn : In (EvF ?i ?k) _ |- _ \/ _ =>
+                let old :=
+                  (pose proof (j1 Ha i k HIn) as X; destruct X as [X|[X1 X2]];
+                   [ left; first [assumption|reflexivity]
+                   | destruct (Nat.eqb_spec i i0');
+                     [ subst i; rewrite Heqf in X2; simpl in X2; try discriminate X2; simpl;
+                       first [ right; split; [assumption|reflexivity]
+                             | left; first [reflexivity | apply must_write_zero; assumption] ]
+                     | right; split; assumption ] ]) in
+                first [ apply pend_snoc in HIn; destruct HIn as [HIn|HIn];
+                        [ old
+                        | injection HIn as -> ->;
+                          first [ right; rewrite Nat.eqb_refl; simpl; split; reflexivity
+                                | exfalso; pose proof (if2 i0') as E; rewrite Heqf in E; simpl in E;
+                                  specialize (E eq_refl); apply armed_in_G in Ha; congruence ] ]
+                      | old ]
+            end).
+  (* j2 *)
+  all: try (match goal with
+            | Hs : _ = false |- _ => exfalso; clear - Hs; destruct (md s); simpl in Hs; discriminate
+            end).
+  all: match goal with
+       | Hs : _ = false, Hp : _ \/ _, HIn : In (EvF ?i ?k) _ |- _ /\ _ =>
+           assert (Hp0 : bl (lp s) = true \/ wpre (lp s) = true /\ gtl (gs s (cur s)) <> Zero)
+             by (destruct Hp as [Hp|[Hp1 Hp2]];
+                 [ left; exact Hp
+                 | first [ right; split; [exact Hp1 | exact Hp2] | exfalso; apply Hp2; reflexivity ] ]);
+           let old :=
+             (pose proof (j2 Hs Hp0 i k HIn) as X;
+              destruct (Nat.eqb_spec i i0');
+              [ subst i; rewrite Heqf in X; simpl in X; destruct X as [X1 X2]; simpl;
+                first [ destruct X2
+                      | split; [assumption | first [ exact I | assumption ] ]
+                      | exfalso; apply X2; apply must_write_zero; assumption
+                      | exfalso; rewrite (ihd (region_wp _ ltac:(destruct Hp0 as [Hq|[Hq _]]; [left|right]; exact Hq))) in *;
+                        discriminate ]
+              | first [ exact X
+                      | exfalso; pose proof (excl_f s i0' i i0) as E; rewrite Heqf in E; simpl in E;
+                        specialize (E ltac:(lia) ltac:(congruence)); destruct X as [_ X2];
+                        destruct (fp (fts s i)) as [| | | |? []| |]; simpl in *; try lia; tauto ] ]) in
+           first [ apply pend_snoc in HIn; destruct HIn as [HIn|HIn];
+                   [ old
+                   | injection HIn as -> ->; rewrite Nat.eqb_refl; simpl;
+                     first [ split; [reflexivity|];
+                             destruct Hp0 as [Hb|[_ Hnz]]; [|exact Hnz];
+                             apply (holder_nonzero s i0' i0 j3 Hs Hb); rewrite Heqf; simpl; [lia|reflexivity]
+                           | exfalso; pose proof (if2 i0') as E; rewrite Heqf in E; simpl in E;
+                             specialize (E eq_refl);
+                             rewrite (region_in_G _ ltac:(destruct Hp0 as [Hq|[Hq _]]; [left|right]; exact Hq)) in E;
+                             discriminate ] ]
+                 | old ]
+       end.
   all: match goal with H : fp _ = ?p |- ?G => idtac "PC" p "|-" G end.
 Qed.
